@@ -77,6 +77,7 @@ class Check(PropertyCheck):
     def docs(self, n):
         ds = ['a\n# Legend:', '+--+\n|ab|\n+--+\n# Legend:\na = {fill:red}\nb = {stroke:blue}\n', 'a\n# Legend:\n']
         ds += [gen_doc(self.rng) for _ in range(n)]
+        ds += [gen.zoo(self.rng).replace("\r", "") + "\n" for _ in range(n // 4)]
         for _, t in gen.bundled()[:3]:
             ds.append(t if t.endswith("\n") else t + "\n")
         return ds
